@@ -862,6 +862,13 @@ func (e *c06env) run(entry string, b []byte) {
 		k.EC2()
 		k.OKP()
 		k.Symmetric()
+		for _, l := range []any{int64(-99999), "no such label", int(-1), uint8(3), 1.5, nil} {
+			k.ParamBytes(l)
+			k.ParamInt(l)
+			k.ParamUint(l)
+			k.ParamString(l)
+			k.ParamBool(l)
+		}
 		for l := range k.Params {
 			k.ParamBytes(l)
 			k.ParamInt(l)
